@@ -23,6 +23,7 @@ ABBR = {
 }
 PARAM_KINDS = {"MOVED", "REMOVED", "CHANGED_KIND", "CHANGED_DEFAULT", "CHANGED_REQUIRED", "ADDED_REQUIRED"}
 MAXPOS = 3
+MISLOADED: list = []   # signatures the visitor did not store as declared (filled by visit_module)
 
 
 # ---- extraction of the kind sets from the working tree --------------------------------------------------
@@ -134,7 +135,10 @@ def visit_module(griffe, sig):
     mod = griffe.visit("m", filepath=Path("m.py"), code=source(sig))
     got = [(p.name, ABBR[p.kind.value], "none" if p.default is None or p.kind.value.startswith("variadic") else str(p.default)) for p in mod["f"].parameters]
     if got != list(key(sig)):
-        die(f"C10: the visitor does not store the rendered signature (C02's business): {got} for {key(sig)}")
+        # The finder works on LOADED signatures: a visitor that stores a different signature than the source
+        # declares is part of the code under test here - the clauses (i)-(iv) judge the outcome, the driver
+        # only counts the mismatches (C02 owns the extraction itself).
+        MISLOADED.append(f"def f({render(sig)}) loaded as {got}")
     return mod
 
 
